@@ -111,4 +111,111 @@ theorem cdsIn_merged (src : List Blk) (st : Strand) (f : Nat) (g : List Char) (h
   · unfold CdsIn.endPartial CdsIn.endsOnStop; rw [hl, hc]
   · unfold CdsIn.inFrameStop; rw [hc]
 
+/-! ### whole collections -/
+
+/-- pointwise relation of two lists of equal length -/
+def Rel2 {α β} (R : α → β → Prop) : List α → List β → Prop
+  | [], [] => True
+  | a :: as, b :: bs => R a b ∧ Rel2 R as bs
+  | _, _ => False
+
+theorem Rel2_append {α β} (R : α → β → Prop) : ∀ (a₁ : List α) (b₁ : List β) (a₂ : List α) (b₂ : List β),
+    Rel2 R a₁ b₁ → Rel2 R a₂ b₂ → Rel2 R (a₁ ++ a₂) (b₁ ++ b₂)
+  | [], [], _, _, _, h => h
+  | a :: as, b :: bs, a₂, b₂, h1, h2 => ⟨h1.1, Rel2_append R as bs a₂ b₂ h1.2 h2⟩
+  | [], _ :: _, _, _, h, _ => h.elim
+  | _ :: _, [], _, _, h, _ => h.elim
+
+/-- a printed feature `f` (skeleton + qualifier dictionary) realises the expectation `w` of the property -/
+structure Realises (pre : List Char) (w : Want) (f : Feature) : Prop where
+  ok : FeatOK f
+  key : w.keyOk f.key = true
+  strand : f.strand ∈ w.strands
+  good : goodBlocks w.blocks = true
+  blocks : f.blocks = mergedBlocks w.blocks
+  si : f.si = w.si
+  ei : f.ei = w.ei
+  pseudo : f.pseudo = w.pseudo
+  cs : ∀ n, w.codonStart = some n → f.key = "CDS".toList ∧
+    f.quals.filter (fun kv => kv.1 = "codon_start".toList) = [("codon_start".toList, [some (natStr n)])]
+  tag : f.quals.filter (fun kv => kv.1 = "locus_tag".toList)
+    = [("locus_tag".toList, [some (pre ++ '_' :: natStr w.tagNo)])]
+
+theorem okFeat_of_realises (pre : List Char) (hpre : plainChars pre) (w : Want) (f : Feature)
+    (h : Realises pre w f) : okFeat pre w (featOf f) = true := by
+  have h0 := feature_clauses pre hpre f h.ok w.blocks h.good h.blocks w.keyOk h.key w.codonStart h.cs w.tagNo h.tag
+  unfold okFeat at h0 ⊢
+  simp only [Bool.and_eq_true] at h0 ⊢
+  obtain ⟨⟨⟨⟨⟨a1, a2⟩, a3⟩, a4⟩, a5⟩, a6⟩ := h0
+  refine ⟨⟨⟨⟨⟨a1, ?_⟩, ?_⟩, ?_⟩, a5⟩, a6⟩
+  · simp only [okRowsMerged, List.any_cons, List.any_nil, Bool.or_false] at a2
+    simp only [okRowsMerged, List.any_eq_true]
+    exact ⟨f.strand, h.strand, a2⟩
+  · simpa [okMarks, h.si, h.ei] using a3
+  · simpa [okPseudo, h.pseudo] using a4
+
+theorem zipAll_of_rel2 (pre : List Char) (hpre : plainChars pre) : ∀ (ws : List Want) (fs : List Feature),
+    Rel2 (Realises pre) ws fs → zipAll (okFeat pre) ws (fs.map featOf) = true
+  | [], [], _ => rfl
+  | w :: ws, f :: fs, h => by
+    simp only [List.map_cons, zipAll, Bool.and_eq_true]
+    exact ⟨okFeat_of_realises pre hpre w f h.1, zipAll_of_rel2 pre hpre ws fs h.2⟩
+  | [], _ :: _, h => h.elim
+  | _ :: _, [], h => h.elim
+
+/-- the collections of one call, each with the expectations of the property (`wantAll` with the gene numbering
+    running on from `i`) and the features printed for it -/
+def Staged : Nat → List (CollIn × List Want × List Feature) → Prop
+  | _, [] => True
+  | i, (c, ws, fs) :: rest =>
+    wantAll c i c.genes = some ws ∧ Rel2 (Realises c.tagPrefix) ws fs ∧ plainChars c.tagPrefix ∧
+    CollOK (c.seqName, fs) ∧ Staged (i + c.genes.length) rest
+
+theorem okFilesFrom_of_staged : ∀ (i : Nat) (items : List (CollIn × List Want × List Feature)), Staged i items →
+    okFilesFrom i (items.map (·.1)) (items.map (fun it => ⟨it.1.seqName, it.2.2.map featOf⟩)) = true
+  | _, [], _ => rfl
+  | i, (c, ws, fs) :: rest, h => by
+    obtain ⟨h1, h2, h3, _, h5⟩ := h
+    simp only [List.map_cons, okFilesFrom, h1, Bool.and_eq_true, beq_self_eq_true, true_and]
+    exact ⟨zipAll_of_rel2 c.tagPrefix h3 ws fs h2, okFilesFrom_of_staged _ rest h5⟩
+
+theorem staged_collOK : ∀ (i : Nat) (items : List (CollIn × List Want × List Feature)), Staged i items →
+    ∀ c ∈ items.map (fun it => (it.1.seqName, it.2.2)), CollOK c
+  | _, [], _ => by simp
+  | i, (c, ws, fs) :: rest, h => by
+    intro x hx
+    simp only [List.map_cons, List.mem_cons] at hx
+    rcases hx with rfl | hx
+    · exact h.2.2.2.1
+    · exact staged_collOK _ rest h.2.2.2.2 x hx
+
+/-- **whole call**: the text `collection_to_tbl` writes for several collections reads back as one section per
+    collection, and the sections meet C17 (`okFiles`): header per collection, every feature its clauses, locus-tag
+    numbers running on across the collections -/
+theorem okFiles_of_staged (items : List (CollIn × List Want × List Feature)) (h : Staged 1 items) :
+    ∃ t secs, filesText (items.map (fun it => (it.1.seqName, it.2.2))) = some t ∧
+      Spec.Tbl.read t = some secs ∧ okFiles (items.map (·.1)) secs = true := by
+  obtain ⟨t, ht, hr⟩ := filesText_read _ (staged_collOK 1 items h)
+  refine ⟨t, _, ht, hr, ?_⟩
+  have := okFilesFrom_of_staged 1 items h
+  simpa [okFiles, List.map_map, Function.comp_def] using this
+
+/-! ### flavour -/
+
+/-- prokaryotic flavour: no `mRNA` feature is written, every other feature is, in the same order;
+    eukaryotic flavour: every feature is written -/
+theorem flavourFilter_spec (prok : Bool) (fs : List Feature) :
+    flavourFilter prok fs = (if prok then fs.filter (fun f => f.key ≠ "mRNA".toList) else fs) ∧
+    (∀ f ∈ flavourFilter prok fs, f ∈ fs ∧ (prok = true → f.key ≠ "mRNA".toList)) ∧
+    (∀ f ∈ fs, (prok = false ∨ f.key ≠ "mRNA".toList) → f ∈ flavourFilter prok fs) := by
+  unfold flavourFilter
+  cases prok
+  · simp
+  · simp only [if_true, List.mem_filter, decide_eq_true_eq]
+    refine ⟨trivial, fun f hf => ⟨hf.1, fun _ => hf.2⟩, ?_⟩
+    intro f hf h
+    rcases h with h | h
+    · exact absurd h (by simp)
+    · exact ⟨hf, h⟩
+
 end BioCantor.Proofs.Tbl
